@@ -382,6 +382,7 @@ func runC11(c *Ctx) {
 		}
 		// ids beyond the per-block limit go back to the removal queue (not to another queue)
 		checkQueueBundles(c, "pk.Keeper.BeginBlockRemoveConsumers")
+		c.KeyShapeIs("pt.RemovalTimeToConsumerIdsKey", "Const(RemovalTimeToConsumerIdsKeyName)·Time(param:removalTime)", "the removal queue is scanned in time order and the scan stops at the first future entry")
 	}
 	if f := c.Fn("pk.Keeper.DeleteConsumerChain"); f != nil {
 		isStopped := AEq("phase == STOPPED", PCall("pk.Keeper.GetConsumerPhase", -1, nil, nil, PParam("consumerId")), PConstInt(stopped))
@@ -490,6 +491,28 @@ func runC11(c *Ctx) {
 				c.Check(PParam("consumerId")(arg(cl, 1)), fk(f, "calls", shortName(q(callee))), cl, "cleanup of the consumerId parameter")
 			}
 		}
+		// every cleanup step is unconditional for a STOPPED consumer, except the channel steps (only
+		// when a channel was bound) and the per-validator commission loop
+		conditional := map[string]string{
+			q("pk.Keeper.chanCloseInit"):               "only for an open channel",
+			q("pk.Keeper.DeleteConsumerIdToChannelId"): "only when a channel was bound (checked below)",
+			q("pk.Keeper.DeleteChannelIdToConsumerId"): "only when a channel was bound (checked below)",
+		}
+		stoppedA := AEq("phase == STOPPED", PCall("pk.Keeper.GetConsumerPhase", -1, nil, nil, PParam("consumerId")), PConstInt(stopped))
+		nUncond := 0
+		for _, cl := range AllCalls(f, false) {
+			if !isStateEffect(cl) || inLoop(cl) {
+				continue
+			}
+			if _, isCond := conditional[calleeName(cl)]; isCond {
+				continue
+			}
+			nUncond++
+			for _, r := range reachableReturns(f, T(stoppedA)) {
+				c.Check(mustPassBefore(r, cl), fk(f, "unconditional-cleanup", shortName(calleeName(cl))), cl, "every return of a STOPPED consumer's deletion passes "+shortName(calleeName(cl))+" (not only the branch with a bound channel)")
+			}
+		}
+		c.Check(nUncond >= 12, fk(f, "unconditional-cleanup", "census"), f, fmt.Sprintf("%d unconditional cleanup steps", nUncond))
 		// both channel indexes go whenever a channel was bound (also when it is already closed)
 		chFound := ABool("channel bound", PCall("pk.Keeper.GetConsumerIdToChannelId", 1, nil, nil, PParam("consumerId")))
 		for _, callee := range []string{"pk.Keeper.DeleteConsumerIdToChannelId", "pk.Keeper.DeleteChannelIdToConsumerId"} {
